@@ -249,6 +249,42 @@ def pymodule_model_part(rep, tier):
                 modules_compared=len(states), drift=drift, generation_errors=errs, model_flagged=flagged)
 
 
+# ------------------------------------------------------------------ C02: the command-line front end
+def _cli_obs(st):
+    import shutil
+    import tempfile as _tf
+    from statham.__main__ import parse_input_arg, parse_args
+    inp = "".join(st["input"])
+    ob = {"uri": None, "name": None}
+    try:
+        ob["uri"] = parse_input_arg(inp)
+        d = _tf.mkdtemp(prefix="verif-cli-")
+        try:
+            with parse_args(["--input", inp, "--output", d]) as (uri, fh):
+                ob["name"] = os.path.basename(fh.name)
+                ob["uri2"] = uri
+        finally:
+            shutil.rmtree(d, ignore_errors=True)
+    except BaseException as exc:  # argparse may exit
+        ob["err"] = type(exc).__name__ + ": " + str(exc)[:80]
+    return ob
+
+
+def cli_model_part(rep, tier):
+    """MC_Cli: how the input argument becomes the URI given to main() and the output file name;
+    every argument of <= 5 (6) tokens is replayed on parse_input_arg / parse_args."""
+    n = 5 if tier == "quick" else 6
+    lines, meta = df._cached_tlc("cli", f"CONSTANT MaxLen = {n}\nSPECIFICATION Spec\nINVARIANT Inv\nCHECK_DEADLOCK FALSE\n",
+                                 module="MC_Cli", workers=4)
+    obs = drive.pmap(_cli_obs, lines, chunksize=128)
+    drift = 0
+    for st, ob in zip(lines, obs):
+        if "err" in ob or ob["uri"] != "".join(st["uri"]) or ob.get("uri2") != ob["uri"] \
+                or ob["name"] != "".join(st["dirname"]):
+            drift += 1
+    return dict(arguments=len(lines), states=meta["distinct"], drift=drift)
+
+
 # ------------------------------------------------------------------ C09: other processes
 DRIVER = r'''
 import sys, json, hashlib
@@ -423,6 +459,7 @@ def collect(rep, pid, tier, replay_file=None):
     if pid == "C02" and not replay_file:
         pym = pymodule_model_part(rep, tier)
         extra["pymodule_model"] = pym
+        extra["cli_model"] = cli_model_part(rep, tier)
     if not replay_file and len(nontrivial) < 2:
         raise MachineryError("vacuity: no non-trivial case")
     coverage = dict(
